@@ -104,6 +104,10 @@ impl TxBatchBuilder {
             current_tx_proposal.add_last_ada_to_last_output()?;
             self.asset_groups
                 .set_min_ada_for_tx(&mut current_tx_proposal)?;
+            // the final fee and minimum ada must still be covered by what the inputs hold
+            if !current_tx_proposal.get_need_ada()?.is_zero() {
+                return Err(JsError::from_str("Not enough funds"));
+            }
             self.tx_proposals.push(current_tx_proposal);
         }
 
